@@ -98,6 +98,8 @@ def cdur(i, n, count):
 def build(x):
     kind = x[0]
     evs = []
+    if len(x) == 1:
+        return cp.FlexTempo([]) if kind == "T" else ce.Envelope([])      # an envelope without any control point
     if kind == "E" and sum(int(p[0]) for p in x[1:]) % 4 == 1 and os.environ.get("VERIF_PLAIN_ENVELOPES") != "1":
         # every fourth plain envelope (decided by its length) is a subclass with parameter objects
         for i, p in enumerate(x[1:]):
@@ -272,7 +274,10 @@ def build_tempo(x):
             return cp.WesternTempo(60, reference=2)       # 120 bpm written as 60 half notes per minute
         return cp.DirectTempo(fl(x[1]))
     if x[0] == "D":
-        return cp.DirectTempo(fl(x[1][1]))
+        b = fl(x[1][1])
+        if b == 120:
+            return cp.WesternTempo(60, reference=2)
+        return cp.DirectTempo(b)                        # (a plain number is not a Tempo: the converter's parameter is documented as a Tempo object)
     return build(["T"] + x[1:])
 
 
@@ -330,14 +335,18 @@ def _walk(e):
 
 def run_convert(case):
     tempo = build_tempo(case[1])
-    conv = cc.TempoConverter(tempo)
+    # the documented option is mostly left at its default; it only concerns the `tempo` attribute of converted nodes, not
+    # the durations
+    conv = cc.TempoConverter(tempo, apply_converter_on_events_tempo=False) if sum(map(ord, sx.show(case))) % 5 == 3 else cc.TempoConverter(tempo)
     if sum(map(ord, sx.show(case))) % 4 == 2:
         # the caller goes on using its tempo object after the converter was made (a converter is made from the tempo as
         # it is at that moment): every third such case edits it in place before the first conversion
         if isinstance(tempo, cp.FlexTempo):
             if len(tempo):
                 tempo[0].tempo = cp.DirectTempo(tempo[0].tempo.bpm + 30)
-        else:
+        elif isinstance(tempo, cp.WesternTempo):
+            tempo.reference = tempo.reference * 2
+        elif isinstance(tempo, cp.abc.Tempo):
             tempo.bpm = tempo.bpm + 30
     env_before = None
     tempo_before = tempo_snap(tempo)
